@@ -21,7 +21,7 @@ func (vc *VC) zeroValue(t types.Type) (Term, error) {
 		vc.DeclareFun(name, nil, srt)
 		return Term{name, srt}, nil
 	}
-	if _, ok := t.(*types.TypeParam); ok {
+	if _, ok := types.Unalias(t).(*types.TypeParam); ok {
 		name := "zero!" + sanitize(string(srt))
 		vc.DeclareFun(name, nil, srt)
 		return Term{name, srt}, nil
